@@ -76,10 +76,33 @@ def wGood : SchemaDef :=
     "plain text"
 
 
-theorem wWideId_accepted : Accepted wWideId := by decide +kernel
+/-- a `float` constant field whose value is an enumerator that does not convert exactly: the one class of
+    literal site sbeppc still does not check against the type it is braced into -/
+def wFloatRef : SchemaDef :=
+  mkSchema (stdTypes ++ [.enum "E" "uint32" none [{ name := "X", value := "16777217" }] {}])
+    [msg "M" 1 [{ name := "k", id := 1, type := "float", offset := none, presence := .constant, valueRef := some "E.X" }]]
+/-- a group whose size header counts in `float` -/
+def wFloatHdr : SchemaDef :=
+  mkSchema (stdTypes ++ [.composite "fdim" none [ty "blockLength" "uint16", ty "numInGroup" "float"] {}])
+    [msg "M" 1 [] [.mk "g" 2 "fdim" none [fld "x" "uint8"] [] [] {}]]
+/-- two enumerators with the same value, written differently -/
+def wDupEnum : SchemaDef :=
+  mkSchema (stdTypes ++ [.enum "E" "uint8" none [{ name := "A", value := "1" }, { name := "B", value := "01" }] {}])
+    [msg "M" 1 [fld "e" "E"]]
 
-theorem wWideId_bad : (literalSites wWideId pkg).any (fun site => site.verdict == .bad) = true := by
+theorem wFloatRef_accepted : Accepted wFloatRef := by decide +kernel
+
+theorem wFloatRef_bad : (literalSites wFloatRef pkg).any (fun site => site.verdict == .bad) = true := by
   decide +kernel
+
+/-- the former witnesses of the header-filler narrowing, floating-point header member and duplicate `case`
+    defects: the model still predicts the problem, and the acceptance conditions (validator rules of ceb9ad3,
+    bf3e3ae, c7e26c2) now reject each of them -/
+theorem fixed_header_witnesses :
+    (¬ Accepted wWideId ∧ (literalSites wWideId pkg).any (fun site => site.verdict == .bad) = true) ∧
+    (¬ Accepted wFloatHdr ∧ (headerTypeProblems wFloatHdr).isEmpty = false) ∧
+    (¬ Accepted wDupEnum ∧ (duplicateCaseProblems wDupEnum).isEmpty = false) := by
+  refine ⟨⟨?_, ?_⟩, ⟨?_, ?_⟩, ⟨?_, ?_⟩⟩ <;> decide +kernel
 
 /-- the former literal defect classes (a quote in a description, `minValue="08"`, `minValue="16777217"` of a
     float type, the enumerator `'`): accepted, and every site is now a well-formed literal of the schema value -/
